@@ -640,6 +640,16 @@ func chunkedSeq(e *env, prop string, mode int) {
 			im = 3
 		}
 		cases = append(cases, interleavingCases(im)...)
+		// multi-key gets: every value handed out must still be, when the whole get is over, the
+		// value one set wrote (the receiver keeps them while the handler fetches the next keys)
+		ds5 := 1184 - 71 - 3 - 16
+		for _, lens := range [][2]int{{3 * ds5, 2*ds5 - 7}, {2*ds5 + 1, 2*ds5 + 1}, {ds5 + 9, 5}, {40, 40}, {5, 3 * ds5}} {
+			for _, order := range [][]int{{0, 1}, {1, 0}, {0, 0, 1}, {0, 1, 0, 1}} {
+				cases = append(cases, hCase{Keys: []string{"alpha", "b"}, Spare: []int{0, 0}, Ops: []hOp{
+					{Kind: "set", Key: 0, Len: lens[0], Seed: 21, TTL: 0}, {Kind: "set", Key: 1, Len: lens[1], Seed: 22, TTL: 0},
+					{Kind: "get", Key: 0, Keys: order}}})
+			}
+		}
 		w.Res.Exhaustive = true
 	} else {
 		// corpus: directed cases kept from earlier findings run first
@@ -711,7 +721,7 @@ func chunkedSeq(e *env, prop string, mode int) {
 		}
 		w.Add(rig.Case{Desc: c, Coq: coq, Nontrivial: nt, Tags: tags})
 	}
-	w.Res.Rule = "chunked handler over a fake backend: random operation sequences over 3 client keys (lengths 1..250, with and without spare slice capacity, keys resembling each other's backend keys), value lengths 0/1/k*payload±1/100/999 chunks; non-trivial = some value spans >= 2 chunks; C05: every subset of {meta, chunk i} of an n-chunk value removed before a get and a gat, with stale chunks of an older longer value present (exhaustive in n); and the backend requests of two complete sets of one key merged in every order, with a get (resp. gat) after every single request (exhaustive for n <= 2 chunks quick, <= 3 thorough)"
+	w.Res.Rule = "chunked handler over a fake backend: random operation sequences over 3 client keys (lengths 1..250, with and without spare slice capacity, keys resembling each other's backend keys), value lengths 0/1/k*payload±1/100/999 chunks; non-trivial = some value spans >= 2 chunks; C05: every subset of {meta, chunk i} of an n-chunk value removed before a get and a gat, with stale chunks of an older longer value present (exhaustive in n); and the backend requests of two complete sets of one key merged in every order, with a get (resp. gat) after every single request (exhaustive for n <= 2 chunks quick, <= 3 thorough); multi-key gets of two keys with values of 1..3 chunks in every order, each value checked again when the whole get is over"
 	if err := w.Finish([]string{"base.Bytes", "base.Harness", "gen.Consts_gen", "spec.MapSpec", "orca.Types", "handlers.Chunked", "checks.Check04"}, "case04",
 		fmt.Sprintf("check04 %d", mode)); err != nil {
 		rig.Die("%v", err)
